@@ -172,8 +172,9 @@ Proof.
     destruct (sides_replace gl gp a b "OO" in_markers_OO eq_refl G S) as [S1 NE].
     change ".OO" with (String dot "OO").
     destruct (String.eqb_spec (replace (String dot "OO") "" b) ""); [contradiction|].
-    change (replace (String dot "OO") "" b ++ ".O.O") with (replace (String dot "OO") "" b ++ repeat_str ".O" 2).
-    apply sides_water. apply sides_react; auto. right. eexists. reflexivity.
+    apply sides_water. apply sides_react; auto.
+    + change ".[H].[H]" with (String dot "[H].[H]"). apply dot_or_end_repeat.
+    + now apply nogt_repeat_str.
 Qed.
 Lemma sides_modify gl gp a b a' b' : guard gl gp -> sides gl gp a b -> modify a b = (a', b') -> sides gl gp a' b'.
 Proof.
